@@ -75,6 +75,36 @@ func (r *Result) Add(o Oblig) {
 	r.Obligs = append(r.Obligs, o)
 }
 
+// mark / rollback: a reader that does not recognise a statement form records its obligations
+// provisionally; when a shape-independent reader then decides the same construct, the
+// provisional ones are withdrawn.
+type resultMark struct {
+	n    int
+	keys map[string]int
+}
+
+func (r *Result) mark() resultMark {
+	k := map[string]int{}
+	for a, b := range r.seenKeys {
+		k[a] = b
+	}
+	return resultMark{len(r.Obligs), k}
+}
+
+func (r *Result) allOKSince(m resultMark) bool {
+	for _, o := range r.Obligs[m.n:] {
+		if o.Verdict != OK {
+			return false
+		}
+	}
+	return true
+}
+
+func (r *Result) rollback(m resultMark) {
+	r.Obligs = r.Obligs[:m.n]
+	r.seenKeys = m.keys
+}
+
 func (r *Result) ok(rule, fn, pos, desc string) {
 	r.Add(Oblig{Rule: rule, Func: fn, Pos: pos, Desc: desc, Verdict: OK})
 }
